@@ -180,9 +180,13 @@ def twoindex(ctx: Any) -> List[Ob]:
     rk = prog.func('zeroconf._cache._remove_key')
     p = rk.params
     cfg = cfg_of(rk.node)
+    from .common import expand as _xp
+
+    # read through a local that names the bucket (`store = cache[key]`)
+    bucket = f'{p[0]}[{p[1]}]'
     dels = [n for n in cfg.nodes if n.kind == 'stmt' and isinstance(n.ast, ast.Delete)]
-    inner = [n for n in dels if any(isinstance(t, ast.Subscript) and isinstance(t.value, ast.Subscript) for t in n.ast.targets)]
-    outer = [n for n in dels if any(isinstance(t, ast.Subscript) and isinstance(t.value, ast.Name) for t in n.ast.targets)]
+    inner = [n for n in dels if any(isinstance(t, ast.Subscript) and norm(_xp(rk, t.value)) == bucket for t in n.ast.targets)]
+    outer = [n for n in dels if any(isinstance(t, ast.Subscript) and norm(_xp(rk, t)) == bucket for t in n.ast.targets)]
     good = False
     if inner and outer:
         # after the inner delete, the outer delete is executed exactly when the bucket is empty
@@ -190,7 +194,7 @@ def twoindex(ctx: Any) -> List[Ob]:
         tests = [d for d in cfg.nodes if d.kind == 'test' and cfg.dominates(d, o)]
         for d in tests:
             t = d.ast
-            empty_true = isinstance(t, ast.UnaryOp) and isinstance(t.op, ast.Not) and isinstance(t.operand, ast.Subscript)
+            empty_true = isinstance(t, ast.UnaryOp) and isinstance(t.op, ast.Not) and norm(_xp(rk, t.operand)) == bucket
             if empty_true and any(cfg.dominates(s, o) or s is o for s, lab in d.succ if lab is True) and cfg.dominates(inner[0], d):
                 good = True
     obs.append(ob(R, rk, 'if not cache[key]: del cache[key]', 'removing the last record of a name deletes the now-empty bucket', good))
